@@ -45,7 +45,7 @@ def sandbox():
         "site/.hidden": "TOKEN-hidden", "site/backup.txt~": "TOKEN-backup", "site/sub/.dot/x": "TOKEN-dotdir",
         "site..x/s.txt": "SECRET-sibling-dotdotx", "site_private/s.txt": "SECRET-sibling-private",
         "secret.txt": "SECRET-parent", "site/..x/inside.txt": "TOKEN-inside-dotdotx-dir", "site/é/ž.txt": "TOKEN-inside-utf8",
-        "site/unreadable.txt": "TOKEN-unreadable",
+        "site/unreadable.txt": "TOKEN-unreadable", "site/data.zzq": "TOKEN-unknown-type", "site/sub/noext": "TOKEN-no-extension",
     }
     for rel, content in files.items():
         p = os.path.join(base, rel)
@@ -54,6 +54,13 @@ def sandbox():
             f.write(content)
     os.chmod(os.path.join(root, "unreadable.txt"), 0)
     os.makedirs(os.path.join(root, "empty"))
+    # an entry that is neither a regular file nor a directory (never opened: a socket cannot be)
+    import socket
+    sk = socket.socket(socket.AF_UNIX)
+    try:
+        sk.bind(os.path.join(root, "sock"))
+    finally:
+        sk.close()
     _sb.update(base=base, root=root, files={os.path.join(base, k): v for k, v in files.items()})
     if not _hooked[0]:
         sys.addaudithook(audit)
@@ -71,7 +78,8 @@ def cleanup():
 
 
 SEGS = ["", ".", "..", "sub", "deep", "a.txt", "f.txt", "index.txt", "..x", "_private", "s.txt", "%2e%2e", "a\x00b", "é",
-        "ž.txt", "secret.txt", ".hidden", "backup.txt~", "unreadable.txt", "empty", "site", "site..x", "site_private"]
+        "ž.txt", "secret.txt", ".hidden", "backup.txt~", "unreadable.txt", "empty", "site", "site..x", "site_private",
+        "sock", "data.zzq", "noext"]
 METHODS = ["GET", "HEAD", "POST", "DELETE", "PUT", "OPTIONS"]
 
 
